@@ -623,10 +623,32 @@ pub fn c07<T: Full>(g: &mut Gen, b: &Budget, out: &mut Sink) {
     let ty = T::ty();
     let size = std::mem::size_of::<T>();
     let mut inputs: Vec<Vec<u8>> = Vec::new();
-    for _ in 0..(b.values / 3).max(2) {
+    let nvals = (b.values / 3).max(2);
+    // the last values are long enough to fill the first capped allocation (4096 bytes worth of
+    // elements): a decoder that starts trusting the prefix *after* that is met too
+    let bigs: &[usize] = if b.thorough { &[600, 4097, 9000] } else { &[4097] };
+    for i in 0..nvals + bigs.len() {
+        if i >= nvals {
+            crate::gen::force_big(Some(bigs[i - nvals]));
+        }
         let v = T::gen(g, 0);
+        crate::gen::force_big(None);
         let Some(bs) = enc_obs(&v).1 else { continue };
-        if bs.len() > 65536 {
+        if bs.len() > 200_000 {
+            continue;
+        }
+        if i >= nvals {
+            // only the outermost length prefix (and a few others) is inflated for the long values
+            for p in [0usize, 1, 4] {
+                if bs.len() >= p + 4 {
+                    for pat in [[0xffu8, 0xff, 0xff, 0xff], [0xff, 0xff, 0xff, 0x7f], [0x00, 0x00, 0x00, 0x01]] {
+                        let mut x = bs.clone();
+                        x[p..p + 4].copy_from_slice(&pat);
+                        inputs.push(x);
+                    }
+                }
+            }
+            inputs.push(bs);
             continue;
         }
         // adversarial length prefixes at every 4-byte window (all of them for short encodings)
